@@ -166,12 +166,12 @@ Opened(c, L, Rej, s) ==
      ELSE run[d]]
 
 (* no step is enabled in a state with these values *)
-Terminal(a, ib, nr, nc, rn) ==
+Terminal(a, nr, nc, rn) ==
   /\ \A c \in Callers : ~rn[c].on
   /\ Len(a) = MaxAdd /\ nr = MaxReSet
-  /\ nc = MaxCalls \/ (NCallers > 0 /\ \A i \in 1..Len(a) : a[i] \in ib)
-Out(h, a, ib, nr, nc, rn) ==
-  IF Emit = "all" \/ (Emit = "terminal" /\ Terminal(a, ib, nr, nc, rn)) THEN ToJson(h) ELSE ""
+  /\ nc = MaxCalls
+Out(h, a, nr, nc, rn) ==
+  IF Emit = "all" \/ (Emit = "terminal" /\ Terminal(a, nr, nc, rn)) THEN ToJson(h) ELSE ""
 
 Init == /\ added = <<>> /\ banned = {} /\ ibanned = {}
         /\ nreset = 0 /\ ncalls = 0
@@ -187,7 +187,7 @@ Set(o) ==
           /\ (added = <<>> /\ Sym) => o = CHOOSE x \in Op : TRUE
           /\ added' = Append(added, o) /\ nreset' = nreset
   /\ hist' = Append(hist, [a |-> "Set", op |-> Id(o), f |-> o.f, ret |-> o \notin Range(added)])
-  /\ step' = Out(hist', added', ibanned, nreset', ncalls, run)
+  /\ step' = Out(hist', added', nreset', ncalls, run)
   /\ last' = NoVerdict
   /\ UNCHANGED <<banned, ibanned, ncalls, run>>
 
@@ -205,21 +205,20 @@ Call(L, Rej) ==
        /\ ibanned' = IF s.panic THEN ibanned ELSE ibanned \cup Range(s.rm)
        /\ hist' = Append(hist, [a |-> "Call", l |-> L, rej |-> {Id(o) : o \in Rej},
                                 model |-> IF s.panic THEN <<"panic">> ELSE [i \in 1..Len(s.ops) |-> Id(s.ops[i])]])
-  /\ step' = Out(hist', added, ibanned', nreset, ncalls', run)
+  /\ step' = Out(hist', added, nreset, ncalls', run)
   /\ UNCHANGED <<added, nreset, run>>
 
-(* caller c starts OperationHashes(L, filter rejecting Rej): the iterator's snapshot. A  *)
-(* call on an empty index has no callback and no removal step: those are left to the     *)
-(* one-caller families.                                                                  *)
+(* caller c starts OperationHashes(L, filter rejecting Rej): the iterator's snapshot.    *)
+(* (No guard on what the model believes the index holds: a call that follows calls which *)
+(* should have emptied the index is the one that sees what they left behind.)            *)
 Begin(c, L, Rej) ==
   /\ ~run[c].on
   /\ ncalls < MaxCalls
-  /\ Index # <<>>
   /\ Sym => \A d \in Callers : d < c => run[d].on
   /\ ncalls' = ncalls + 1
   /\ run' = Opened(c, L, Rej, Scan(L, Rej))
   /\ hist' = Append(hist, [a |-> "Begin", c |-> c, l |-> L, rej |-> {Id(o) : o \in Rej}])
-  /\ step' = Out(hist', added, ibanned, nreset, ncalls', run')
+  /\ step' = Out(hist', added, nreset, ncalls', run')
   /\ last' = NoVerdict
   /\ UNCHANGED <<added, banned, ibanned, nreset>>
 
@@ -238,7 +237,7 @@ End(c) ==
         /\ hist' = Append(hist, [a |-> "End", c |-> c,
                                  model |-> IF s.panic THEN <<"panic">> ELSE [i \in 1..Len(s.ops) |-> Id(s.ops[i])]])
   /\ run' = [run EXCEPT ![c] = Idle]
-  /\ step' = Out(hist', added, ibanned', nreset, ncalls, run')
+  /\ step' = Out(hist', added, nreset, ncalls, run')
   /\ UNCHANGED <<added, nreset, ncalls>>
 
 Next == \/ \E o \in Op : Set(o)
